@@ -258,6 +258,22 @@ def unit_excel_workbooks():
             if k12:
                 res.append(Result("C16/K-12 witness: a date cell xlrd calls ambiguous makes the whole workbook unreadable", "audit", FAILED, "native", finding="K-12", cases=len(k12), props=["C16"], detail=repr(k12[0])[:300],
                                   replay={"verdict": "confirmed", "input": repr(k12[0][0]), "expected": "'1900-02-15 00:00:00' (a documented date text)", "observed": "DataFormatError ... " + k12[0][1]}))
+            # a string formula stored without its cached value (as some producers write it): an empty text, not the text 'None'
+            def nov_check(_):
+                import zipfile
+                src = os.path.join(tmp, "nov_src.xlsx"); dst = os.path.join(tmp, "nov.xlsx")
+                wb = xlsxwriter.Workbook(src); ws = wb.add_worksheet(); ws.write_string(0, 0, "a"); ws.write_formula(0, 1, '=A1&"x"', None, "ZZZCACHED"); ws.write_string(0, 2, "c"); wb.close()
+                zin = zipfile.ZipFile(src)
+                with zipfile.ZipFile(dst, "w") as zout:
+                    for info in zin.infolist():
+                        blob = zin.read(info.filename)
+                        if info.filename.endswith("sheet1.xml"):
+                            if b"<v>ZZZCACHED</v>" not in blob: return {"expected": "the cached value in the sheet XML (test construction)", "observed": blob[:200]}
+                            blob = blob.replace(b"<v>ZZZCACHED</v>", b"")
+                        zout.writestr(info, blob)
+                got = list(rowio.excel_rows(dst))
+                return None if got == [["a", "", "c"]] else {"expected": [["a", "", "c"]], "observed": got}
+            res.append(sweep("C16/workbooks/a string formula without a cached value is an empty text", [0], nov_check, "audit", "one hand-edited workbook", function="rowio._excel_cell_value", unit="C16.workbooks", props=["C16"]))
             # xlsx row writer round trip
             def rt_cases():
                 alpha = ["", "a", "b c", "=x", "ä", "1", "0.5", "x\ny", "<&>"]
@@ -275,6 +291,9 @@ def unit_excel_workbooks():
                 yield "refusals", [["a1", "b1", "c1"], ["a2", "x" * 40000, "c2"], ["a3", "b3", "c3"], ["a4", "caf\udce9", "c4"], ["a5", "b5", "c5"]]
                 # items that are no strings and cannot be stored as a number (nan, a number beyond float, a list, None), and text xlsxwriter would take for rich text markup
                 yield "refusals", [["a1", "b1", "c1"], ["a2", float("nan"), "c2"], ["a3", 10 ** 400, "c3"], ["a4", "<r>hello</r>", "c4"], ["a5", "b5", "c5"], ["a6", [1], "c6"], ["a7", None, "c7"], ["a8", "<r>&</r>", "c8"], ["a9", "b9", "c9"]]
+                import decimal as _decimal
+                yield "refusals", [["a1", "b1", "c1"], ["a2", datetime.datetime(2020, 1, 2, 3, 4, 5, tzinfo=datetime.timezone.utc), "c2"], ["a3", "b3", "c3"], ["a4", datetime.time(3, 4, 5, tzinfo=datetime.timezone.utc), "c4"],
+                                   ["a5", _decimal.Decimal("sNaN"), "c5"], ["a6", float("inf"), "c6"], ["a7", "b7", "c7"]]
             def rt_check(table):
                 from cutplace import errors
                 n[0] += 1; path = os.path.join(tmp, "r%d.xlsx" % n[0])
